@@ -305,8 +305,11 @@ def prepare_crate(run, group, kfiles):
 
 
 # ----------------------------------------------------------------------------------------------- running
-def kani_env():
+def kani_env(tmp=None):
     e = dict(os.environ)
+    if tmp:                       # CBMC leaves multi-hundred-MB external-sat*.cnf files behind when a harness is killed on
+        os.makedirs(tmp, exist_ok=True)   # timeout: keep them inside the run's scratch directory, removed with it
+        e['TMPDIR'] = tmp
     e['CARGO_NET_OFFLINE'] = 'true'
     e['CARGO_TERM_COLOR'] = 'never'
     return e
@@ -327,7 +330,7 @@ def run_kani(crate, target_dir, harnesses, harness_timeout, group_timeout, jobs,
     outdir = os.path.join(target_dir, 'result_output_dir')
     shutil.rmtree(outdir, ignore_errors=True)
     t = time.time()
-    p = subprocess.run(cmd, cwd=crate, capture_output=True, text=True, env=kani_env())
+    p = subprocess.run(cmd, cwd=crate, capture_output=True, text=True, env=kani_env(os.path.join(target_dir, 'tmp')))
     wall = time.time() - t
     out = p.stdout + '\n' + p.stderr
     shown = ' '.join(shlex.quote(c) for c in cmd).replace(target_dir, '<scratch>/target')
